@@ -350,14 +350,16 @@ func c12ScenarioBody(e *c12Out, tr *poolTracker, desc string) {
 		c12PingLife(e, tr, desc, f[1])
 	case "X":
 		c12Sweep(e, tr, desc, f[1])
+	case "H":
+		c12HandOver(e, tr, desc, f[1])
 	}
 }
 
 func runC12(a runArgs) error {
 	e := NewEmitter("C12", "Pool.Run")
-	e.Preamble = "From GoCoap Require Import Pool.Model Pool.Spec Pool.Bounded."
+	e.Preamble = "From GoCoap Require Import Pool.Model Pool.Spec Pool.Bounded Pool.HandOverModel."
 	e.ShardSize = 60
-	e.Rule = "complete pool lifecycle traces (release / recycle / re-acquire reported by the verif hook in message/pool, plus hold / unhold / application-release events of the harness with a content digest at hand-over and at the end of the hold). Families on a real udp/client.Conn over an in-memory session: (A) server-role request histories with duplicates, ageing and ticks (generator of C05); (B) client-role Do histories with retransmission ticks, ACK/RST/piggybacked/separate responses and cancellations (generator of C06); (C) concurrent callers + responder + peer requests + housekeeping ticks; (T) tcp/client.Conn against a scripted peer. (P) the exchange histories of C13 on a back-to-back pair of real udp/client.Conn, tracker on both: block-wise up/down incl. abandoned transfers, observe + notifications + cancel, ping answered/lost/cancelled, one-way writes, duplicated and dropped datagrams, limiter-queued-then-cancelled, separate pools or one small shared pool; (N) a tcp/client.Conn against the library's tcp server over an in-memory stream: CSM, block-wise up/down, observe with block-wise notifications, ping; (S) the library's udp server on a loopback socket with several clients from udp.Dial: plain, block-wise, observe, ping, one-way; (Q) sequential acquire/release scripts on a small pool compared step by step with the counter model; (R) goroutines hammering one small pool; (E) scripted block-wise exchanges on a udp/client.Conn with block-wise enabled (SZX16): the application's GET/POST/PUT/FETCH/DELETE or block-wise upload answered datagram by datagram with blocks whose ETag changes, with wrong numbers, wrong lengths, foreign tokens, an early last block, a plain response in the middle, 2.31 with wrong numbers, and the same for a peer uploading to us - besides the complete trace, the events of the receive goroutine per datagram are emitted as an Exchange case and compared with the modelled path of the observed return point. (G) a block-wise call (upload or block-wise response) given up by its caller while the receive goroutine is held at its n-th access to the caller's request (accessor hook of message/pool as scheduling point, request body wrapped; witnesses: Do returned / caller parked in RWMutex.Lock), the application releasing the request as soon as Do has returned; (K) the life of an AsyncPing: pong / reset, expiry sweeps, the cancel function early, late, twice, through inactivity.KeepAlive, with other exchanges recycling the pooled objects in between - one window of lifecycle events per step compared with the model. (X) the expiry sweep of net/blockwise (BlockWise.CheckExpirations / Conn.CheckExpirations with a time at which the transfer has expired) run while the receive goroutine of a block of that transfer (upload of the peer, blocks of a response) is held at its n-th access to the partially received message (before the guard semaphore, under it, during the completion of the last block, inside the application handler the message is lent to), or after it has returned: the events of the sweeping goroutine (window) and the size of receivingMessagesCache are compared with the model's sweep. Every family: an access (any exported accessor of pool.Message) to a message that is released and not handed out again is recorded as a Use event. Distinct = distinct trace; non-trivial = the trace contains at least one re-acquisition of a recycled message and one application hold (Q: at least one release refused by a full pool; Exchange: at least one error return; GiveUp and Sweep: the gate was reached; PingX: more than one step)."
+	e.Rule = "complete pool lifecycle traces (release / recycle / re-acquire reported by the verif hook in message/pool, plus hold / unhold / application-release events of the harness with a content digest at hand-over and at the end of the hold). Families on a real udp/client.Conn over an in-memory session: (A) server-role request histories with duplicates, ageing and ticks (generator of C05); (B) client-role Do histories with retransmission ticks, ACK/RST/piggybacked/separate responses and cancellations (generator of C06); (C) concurrent callers + responder + peer requests + housekeeping ticks; (T) tcp/client.Conn against a scripted peer. (P) the exchange histories of C13 on a back-to-back pair of real udp/client.Conn, tracker on both: block-wise up/down incl. abandoned transfers, observe + notifications + cancel, ping answered/lost/cancelled, one-way writes, duplicated and dropped datagrams, limiter-queued-then-cancelled, separate pools or one small shared pool; (N) a tcp/client.Conn against the library's tcp server over an in-memory stream: CSM, block-wise up/down, observe with block-wise notifications, ping; (S) the library's udp server on a loopback socket with several clients from udp.Dial: plain, block-wise, observe, ping, one-way; (Q) sequential acquire/release scripts on a small pool compared step by step with the counter model; (R) goroutines hammering one small pool; (E) scripted block-wise exchanges on a udp/client.Conn with block-wise enabled (SZX16): the application's GET/POST/PUT/FETCH/DELETE or block-wise upload answered datagram by datagram with blocks whose ETag changes, with wrong numbers, wrong lengths, foreign tokens, an early last block, a plain response in the middle, 2.31 with wrong numbers, and the same for a peer uploading to us - besides the complete trace, the events of the receive goroutine per datagram are emitted as an Exchange case and compared with the modelled path of the observed return point. (G) a block-wise call (upload or block-wise response) given up by its caller while the receive goroutine is held at its n-th access to the caller's request (accessor hook of message/pool as scheduling point, request body wrapped; witnesses: Do returned / caller parked in RWMutex.Lock), the application releasing the request as soon as Do has returned; (K) the life of an AsyncPing: pong / reset, expiry sweeps, the cancel function early, late, twice, through inactivity.KeepAlive, with other exchanges recycling the pooled objects in between - one window of lifecycle events per step compared with the model. (X) the expiry sweep of net/blockwise (BlockWise.CheckExpirations / Conn.CheckExpirations with a time at which the transfer has expired) run while the receive goroutine of a block of that transfer (upload of the peer, blocks of a response) is held at its n-th access to the partially received message (before the guard semaphore, under it, during the completion of the last block, inside the application handler the message is lent to), or after it has returned: the events of the sweeping goroutine (window) and the size of receivingMessagesCache are compared with the model's sweep. (H) the hand-over of a response to the caller waiting in Do - in one piece (piggybacked / separate CON / NON) or reassembled from Block2 blocks, after a block-wise upload, several calls in a row - with an application that uses and releases the response the moment Do returns: an access of the receive path to the handed-over message (accessor hook as scheduling point, recognised by the hijack flag) is counted and held until the application has released the response; the count is compared with the model (no access after the channel send). Every family: an access (any exported accessor of pool.Message) to a message that is released and not handed out again is recorded as a Use event. Distinct = distinct trace; non-trivial = the trace contains at least one re-acquisition of a recycled message and one application hold (Q: at least one release refused by a full pool; Exchange: at least one error return; GiveUp and Sweep: the gate was reached; HandOver: always; PingX: more than one step)."
 	rng := NewRng(a.seed)
 	tr := newPoolTracker()
 	pool.VerifSetTracker(tr)
@@ -416,6 +418,11 @@ func runC12(a runArgs) error {
 	}
 	// X (expiry sweep while a block of the transfer is being processed): short deterministic scripts
 	for _, d := range c12SweepDescriptors(NewRng(rng.U64()), thorough) {
+		c12Scenario(e, tr, d)
+	}
+	// H (hand-over of a response with the caller scheduled first): short deterministic scripts; drawn after all earlier
+	// families, so their descriptors are unchanged
+	for _, d := range c12HandOverDescriptors(NewRng(rng.U64()^0x48), thorough) {
 		c12Scenario(e, tr, d)
 	}
 	for _, d := range bwDescs {
